@@ -53,7 +53,24 @@ impl<C: Suite> M03<C> {
     pub fn new(tier: Tier, seed: u64) -> Self {
         let keys = key_alphabet(seed, tier.thorough());
         let msgs = msg_alphabet(seed, tier.thorough());
-        let seeds = [0usize, 1, 16, 32, 33, 64, 255].iter().map(|l| data(seed, &format!("keygen-seed-{}", l), *l)).collect();
+        // seed alphabet: lengths x contents {pseudo random, zeros, 0xff, pseudo random ending in 0x00 / 0x01 / 0xff}
+        let mut seeds: Vec<Vec<u8>> = vec![];
+        for l in [0usize, 1, 16, 32, 33, 64, 255] {
+            let d = data(seed, &format!("keygen-seed-{}", l), l);
+            seeds.push(d.clone());
+            if l > 0 {
+                seeds.push(vec![0u8; l]);
+                seeds.push(vec![0xFFu8; l]);
+                for last in [0x00u8, 0x01, 0xFF] {
+                    let mut e = d.clone();
+                    *e.last_mut().unwrap() = last;
+                    seeds.push(e);
+                }
+                let mut e = d.clone();
+                e[0] = 0;
+                seeds.push(e);
+            }
+        }
         let rngs = (0..3).map(|i| data32(seed, &format!("rng-{}", i))).collect();
         // public keys live in the other group from signatures
         let pk_len = <C::R as RefSuite>::PK_LEN;
@@ -153,7 +170,12 @@ impl<C: Suite> Model for M03<C> {
             }
         }
         let mut a = vec![Act::Pop];
-        for m in 0..self.msgs.msgs.len() {
+        // sign actions on every key source class; the large seed alphabet only gets a few messages
+        let few = matches!(src, KeySrc::KeyGen(i) if *i % 7 != 0);
+        for m in 0..self.msgs.msgs.len() + SPECIAL_MESSAGES.len() {
+            if few && m >= 3 && m < self.msgs.msgs.len() {
+                continue;
+            }
             for s in SCHEMES {
                 a.push(Act::Sign(m, s));
             }
@@ -178,7 +200,7 @@ impl<C: Suite> Model for M03<C> {
     fn describe(&self, st: &St) -> String {
         match st {
             St::Key(s) => format!("{} key {:?}: secret key bytes and public key bytes vs reference", C::G, s),
-            St::Sign(k, m, s) => format!("{} key {:?} sign {} under {}: bytes vs reference, cross verification", C::G, k, self.msgs.names[*m], s.name()),
+            St::Sign(k, m, s) => format!("{} key {:?} sign {} under {}: bytes vs reference, cross verification", C::G, k, if *m < self.msgs.names.len() { self.msgs.names[*m].clone() } else { SPECIAL_MESSAGES[*m - self.msgs.names.len()].to_string() }, s.name()),
             St::Pop(k) => format!("{} key {:?} proof of possession bytes vs reference", C::G, k),
             St::Agg(k, n, s) => format!("{} aggregate of {} {} signatures starting at key {:?}", C::G, n, s.name(), k),
             St::H2C(i) => format!("{} hash_to_point RFC 9380 vector #{}", C::G, i),
@@ -221,7 +243,14 @@ impl<C: Suite> Model for M03<C> {
             }
             St::Sign(src, m, s) => {
                 let (sk, rsk) = self.key(*src);
-                let msg = &self.msgs.msgs[*m];
+                let n = self.msgs.msgs.len();
+                let special;
+                let msg = if *m < n {
+                    &self.msgs.msgs[*m]
+                } else {
+                    special = special_message(&Vec::<u8>::from(&sk.public_key()), *m - n);
+                    &special
+                };
                 let sig = match guard(|| sk.sign(lib_scheme(*s), msg)) {
                     Ok(Ok(x)) => x,
                     r => {
